@@ -134,7 +134,7 @@ def ensure_facts(repo=None, force=False):
                 raise ExtractionError("tree changed during extraction")
             with open(done, "w") as fh:
                 fh.write("%.1f\n" % (time.time() - t0))
-            prune_facts(keep=4, current=h)
+            prune_facts(keep=10, current=h)
         return d
 
 
